@@ -165,6 +165,44 @@ fn header_id_of(w: &World, header_bytes: &[u8]) -> Value {
     }
 }
 
+/// one page request of a pagination schedule (first request or continuation from `next_page`)
+#[allow(clippy::too_many_arguments)]
+fn serve_page(w: &World, txs: &BTreeMap<u64, bitcoin::Transaction>, pg: &Value, next_page: &mut Option<Vec<u8>>, done: &mut bool,
+              pages: &mut Vec<Value>, at: u64, first: bool) {
+    let a = if pg["address"].as_str() == Some("B") { 8 } else { 7 };
+    let limit = pg["limit"].as_u64();
+    let filter = if first {
+        pg["min_confirmations"].as_u64().map(|c| ic_btc_interface::UtxosFilterInRequest::MinConfirmations(c as u32))
+    } else {
+        Some(ic_btc_interface::UtxosFilterInRequest::Page(serde_bytes::ByteBuf::from(next_page.clone().unwrap())))
+    };
+    let label_of = |txid: &str| -> Value {
+        for (l, t) in txs.iter() { if t.compute_txid().to_string() == txid { return json!(l); } }
+        json!(txid)
+    };
+    let req = GetUtxosRequest { address: w.addr_string(a), network: NetworkInRequest::Regtest, filter };
+    // without a limit the real endpoint (page size 1000) answers, else the hook with the chosen page size
+    let r = catch_unwind(AssertUnwindSafe(|| match limit {
+        Some(l) => ic_btc_canister::verif_get_utxos_with_limit(req.into(), l as usize),
+        None => ic_btc_canister::get_utxos_query(req),
+    }));
+    match r {
+        Err(e) => {
+            let msg = e.downcast_ref::<String>().cloned().or_else(|| e.downcast_ref::<&str>().map(|s| s.to_string())).unwrap_or_default();
+            pages.push(json!({"at": at, "trap": msg}));
+            *done = true;
+        }
+        Ok(Err(e)) => { pages.push(json!({"at": at, "err": format!("{:?}", e)})); *done = true; }
+        Ok(Ok(r)) => {
+            pages.push(json!({"at": at, "tip": block_id_of(w, &r.tip_block_hash), "tip_height": r.tip_height, "has_next": r.next_page.is_some(),
+                "stable_height": with_state(|s| s.stable_height()),
+                "utxos": r.utxos.iter().map(|x| json!([label_of(&x.outpoint.txid.to_string()), x.outpoint.vout, x.value, x.height])).collect::<Vec<_>>()}));
+            *next_page = r.next_page.map(|p| p.to_vec());
+            if next_page.is_none() { *done = true; }
+        }
+    }
+}
+
 fn run_op(w: &mut World, op: &Value) -> Value {
     let kind = op["op"].as_str().unwrap_or("");
     match kind {
@@ -710,7 +748,8 @@ fn run_op(w: &mut World, op: &Value) -> Value {
                         script_sig: bitcoin::ScriptBuf::new(), sequence: bitcoin::Sequence(0xffffffff), witness: bitcoin::Witness::new() }).collect()
                 };
                 bitcoin::Transaction { version: bitcoin::transaction::Version(1), lock_time: bitcoin::absolute::LockTime::from_consensus(label as u32), input,
-                    output: kinds.iter().enumerate().map(|(i, k)| bitcoin::TxOut { value: bitcoin::Amount::from_sat(1000 * label + i as u64), script_pubkey: spk(k) }).collect() }
+                    output: kinds.iter().enumerate().map(|(i, k)| bitcoin::TxOut {
+                        value: bitcoin::Amount::from_sat(op["values"][format!("{}:{}", label, i)].as_u64().unwrap_or(1000 * label + i as u64)), script_pubkey: spk(k) }).collect() }
             };
             let mk_block = |prev: &Header, list: Vec<bitcoin::Transaction>| -> Block {
                 let mut b = BlockBuilder::with_prev_header(*prev);
@@ -737,6 +776,9 @@ fn run_op(w: &mut World, op: &Value) -> Value {
             let mut hist_blocks: BTreeMap<u64, Block> = BTreeMap::new();
             let mut trap: Option<String> = None;
             let mut steps = vec![];
+            let mut pages: Vec<Value> = vec![];
+            let mut next_page: Option<Vec<u8>> = None;
+            let mut paging_done = false;
             let label_of = |txs: &BTreeMap<u64, bitcoin::Transaction>, txid: &str| -> Value {
                 for (l, t) in txs.iter() { if t.compute_txid().to_string() == txid { return json!(l); } }
                 json!(txid)
@@ -789,11 +831,38 @@ fn run_op(w: &mut World, op: &Value) -> Value {
                 let ids = |v: &Vec<ic_btc_types::BlockHash>| { let mut x: Vec<Value> = v.iter().map(|h| block_id_of(w, &h.to_vec())).collect(); x.sort_by_key(|a| a.as_u64().unwrap_or(u64::MAX)); x };
                 let book = json!({"tx_outs": txo.iter().map(|(o, c)| json!([label_of(&txs, &o.txid.to_string()), o.vout, c])).collect::<Vec<_>>(),
                                   "added": ids(&added), "removed": ids(&removed), "tips": tipsv, "cached": ids(&cached)});
+                // pagination schedule: page requests issued after this step
+                if let Some(pg) = op.get("paging") {
+                    let at: Vec<u64> = pg["pages_at"].as_array().unwrap().iter().map(|x| x.as_u64().unwrap()).collect();
+                    for (k, a) in at.iter().enumerate() {
+                        if *a != id { continue; }
+                        if k > 0 && (paging_done || next_page.is_none()) { continue; }
+                        serve_page(w, &txs, pg, &mut next_page, &mut paging_done, &mut pages, id, k == 0);
+                    }
+                }
                 steps.push(json!({"after": id, "book": book, "tree": hashes.iter().map(|h| block_id_of(w, &h.to_vec())).collect::<Vec<_>>(),
                                   "stable_height": with_state(|s| s.stable_height()), "A": q(7), "B": q(8), "balance_A": bal(7), "balance_B": bal(8),
                                   "fees": ic_btc_canister::get_current_fee_percentiles(ic_btc_interface::GetCurrentFeePercentilesRequest { network: NetworkInRequest::Regtest })}));
             }
-            json!({"trap": trap, "steps": steps})
+            if let Some(pg) = op.get("paging") {
+                // remaining pages on the final state
+                let mut guard = 0;
+                while trap.is_none() && !pages.is_empty() && !paging_done && next_page.is_some() && guard < 64 {
+                    serve_page(w, &txs, pg, &mut next_page, &mut paging_done, &mut pages, 0, false);
+                    guard += 1;
+                }
+            }
+            json!({"trap": trap, "steps": steps, "pages": pages})
+        }
+        "utxos_page_blob" => {
+            let blob: Vec<u8> = op["blob"].as_array().unwrap().iter().map(|x| x.as_u64().unwrap() as u8).collect();
+            let req = GetUtxosRequest { address: w.addr_string(7), network: req_net(w.network),
+                filter: Some(ic_btc_interface::UtxosFilterInRequest::Page(serde_bytes::ByteBuf::from(blob))) };
+            match catch_unwind(AssertUnwindSafe(|| ic_btc_canister::get_utxos_query(req))) {
+                Err(e) => json!({"trap": e.downcast_ref::<String>().cloned().or_else(|| e.downcast_ref::<&str>().map(|s| s.to_string())).unwrap_or_default()}),
+                Ok(Err(e)) => json!({"err": format!("{:?}", e)}),
+                Ok(Ok(r)) => json!({"ok": r.utxos.len()}),
+            }
         }
         "percentiles" => {
             let vals: Vec<u64> = op["values"].as_array().unwrap().iter().map(|x| x.as_u64().unwrap()).collect();
